@@ -244,7 +244,11 @@ func Main(t *testing.T, c *Check) {
 						key = c.KeyOf(sc.Name, v.Key)
 					}
 					if nviol < 50 {
-						r.Violation(key, fmt.Sprintf("scenario %s, deviations %v: %s", sc.Name, job.Kinds, v.What),
+						where := sc.Name
+						if len(job.Picks) > 0 {
+							where += " " + strings.Join(job.Picks, " ")
+						}
+						r.Violation(key, fmt.Sprintf("scenario %s, deviations %v: %s", where, job.Kinds, v.What),
 							map[string]any{"check": c.ID, "scenario": sc.Name, "prefix": job.Prefix, "labels": job.Labels, "violation": v})
 					}
 					nviol++
